@@ -301,7 +301,21 @@ def check(prog, rep, tier):
     for n in ast.walk(ir.node):
         if isinstance(n, ast.Assign) and isinstance(n.targets[0], ast.Attribute):
             tg.add(n.targets[0].attr)
-    if {'adj_rib_in', 'adj_rib_out'} <= tg:
+    shared = []
+    for n in ast.walk(ir.node):
+        if isinstance(n, ast.Assign) and isinstance(n.targets[0], ast.Attribute) and \
+                n.targets[0].attr in ('adj_rib_in', 'adj_rib_out'):
+            v_ = n.value
+            fresh = isinstance(v_, (ast.Dict, ast.DictComp)) or (isinstance(v_, ast.Call) and src_of(v_.func) == 'dict'
+                                                                and not v_.args)
+            if not fresh:
+                shared.append(n)
+    if shared:
+        rep.bad('R19.b', 'init_rib', file=ir.file, line=shared[0].lineno, func=ir.qualname,
+                found='%s: the table is not built afresh (alias / shallow copy), so Adj-RIB-In and Adj-RIB-Out share the '
+                      'per-family dictionaries and an update of one shows up in the other' % src_of(shared[0]),
+                expected='two independent {family: {}} tables', key='init_rib')
+    elif {'adj_rib_in', 'adj_rib_out'} <= tg:
         rep.ok('R19.b', 'init_rib', file=ir.file, line=ir.node.lineno)
     else:
         rep.bad('R19.b', 'init_rib', file=ir.file, line=ir.node.lineno, func=ir.qualname,
@@ -342,6 +356,26 @@ def check(prog, rep, tier):
                 found='api.utils.update_send_version does not forward every sent update unchanged to '
                       'protocol.update_send_version (conditional / early return / changed arguments)',
                 expected='a single unconditional forwarding call', key='rest-forwards-version-update')
+    # the Adj-RIB-Out bookkeeping receives the request as it is: the REST helper does not filter or rewrite it
+    sp = prog.func('yabgp.api.utils.save_send_ipv4_policies')
+    pm = sp.params[0] if sp.params else 'msg'
+    rewrites = [n for n in ast.walk(sp.node) if isinstance(n, (ast.Assign, ast.AugAssign, ast.Delete)) and any(
+        isinstance(t, ast.Subscript) and isinstance(t.value, ast.Name) and t.value.id == pm
+        for t in (n.targets if not isinstance(n, ast.AugAssign) else [n.target]))]
+    rcalls = [n for n in ast.walk(sp.node) if isinstance(n, ast.Call) and isinstance(n.func, ast.Attribute)
+              and n.func.attr == 'update_rib_out_ipv4']
+    if rewrites:
+        rep.bad('R19.c', 'rest-rib-out-unfiltered', file=sp.file, line=rewrites[0].lineno, func=sp.qualname,
+                found='%s rewrites the request before the Adj-RIB-Out update: entries are kept or dropped by a test '
+                      'that differs from the table\'s own membership test' % src_of(rewrites[0])[:70],
+                expected='update_rib_out_ipv4(msg) with the request unchanged', key='rest-rib-out-unfiltered')
+    elif len(rcalls) == 1 and [src_of(a_) for a_ in rcalls[0].args] == [pm]:
+        rep.ok('R19.c', 'rest-rib-out-unfiltered', file=sp.file, line=rcalls[0].lineno)
+    else:
+        rep.bad('R19.c', 'rest-rib-out-unfiltered', file=sp.file, line=sp.node.lineno, func=sp.qualname,
+                found='%d calls of update_rib_out_ipv4, arguments %s' % (
+                    len(rcalls), [[src_of(a_) for a_ in c_.args] for c_ in rcalls]),
+                expected='update_rib_out_ipv4(msg)', key='rest-rib-out-unfiltered')
     vf = prog.module('yabgp.api.v1').functions.get('send_update_message')
     sends = [n for n in ast.walk(vf.node) if isinstance(n, ast.Call) and src_of(n.func) == 'api_utils.send_update']
     vers = [n for n in ast.walk(vf.node) if isinstance(n, ast.Call) and src_of(n.func) == 'api_utils.update_send_version']
